@@ -2597,3 +2597,113 @@ Proof.
   intro H. rewrite forallb_forall in H. apply Forall_forall. intros o Ho. specialize (H o Ho).
   destruct o; cbn in *; auto. destruct (snd n); [discriminate|discriminate H].
 Qed.
+
+(** ** Layer classes deriving from other layer classes *)
+Lemma insert_id_in x l y : In y (insert_id x l) <-> y = x \/ In y l.
+Proof.
+  induction l as [|z r IH]; cbn [insert_id].
+  - split; [intros [<-|[]]; auto|intros [->|[]]; left; reflexivity].
+  - destruct (N.ltb x z); [cbn [In]; split; [intros [<-|H]; auto|intros [->|H]; auto]|].
+    destruct (N.eqb x z) eqn:E.
+    + apply N.eqb_eq in E. subst z. cbn [In]. split; [auto|intros [->|H]; auto].
+    + cbn [In]. rewrite IH. split; [intros [H|[H|H]]; auto|intros [H|[H|H]]; auto].
+Qed.
+
+Lemma sort_ids_in l y : In y (sort_ids l) <-> In y l.
+Proof.
+  induction l as [|x r IH]; [reflexivity|]. cbn [sort_ids fold_right]. fold (sort_ids r).
+  rewrite insert_id_in, IH. cbn [In]. split; intros [H|H]; auto.
+Qed.
+
+Lemma find_hd_some l i h : find_hd l i = Some h -> In h l /\ h_id h = i.
+Proof.
+  induction l as [|x r IH]; [discriminate|]. cbn [find_hd]. destruct (N.eqb (h_id x) i) eqn:E; intro H.
+  - inversion H; subst. split; [left; reflexivity|apply N.eqb_eq; exact E].
+  - destruct (IH H). split; [right; assumption|assumption].
+Qed.
+
+Lemma visible_some chain i h : visible chain i = Some h ->
+  h_id h = i /\ exists own, In own chain /\ In h own.
+Proof.
+  induction chain as [|own r IH]; [discriminate|]. cbn [visible].
+  destruct (find_hd own i) as [h0|] eqn:E; intro H.
+  - inversion H; subst h0. destruct (find_hd_some _ _ _ E) as [A B]. split; [exact B|].
+    exists own. split; [left; reflexivity|exact A].
+  - destruct (IH H) as [A [o [B C]]]. split; [exact A|]. exists o. split; [right; exact B|exact C].
+Qed.
+
+(** the methods [__init__] registers are exactly the definitions [getattr] resolves to *)
+Lemma effective_in chain h : In h (effective chain) <-> visible chain (h_id h) = Some h.
+Proof.
+  unfold effective. rewrite in_flat_map. split.
+  - intros [i [_ Hi]]. destruct (visible chain i) as [h0|] eqn:E; [|contradiction].
+    destruct Hi as [<-|[]]. destruct (visible_some _ _ _ E) as [A _]. rewrite A. exact E.
+  - intro H. exists (h_id h). rewrite H. split; [|left; reflexivity].
+    apply sort_ids_in. destruct (visible_some _ _ _ H) as [_ [own [A B]]].
+    apply in_flat_map. exists own. split; [exact A|apply in_map; exact B].
+Qed.
+
+(** a definition in the class itself hides the base classes' definitions of that name *)
+Lemma override_hides own rest ho hb :
+  find_hd own (h_id hb) = Some ho -> In hb (effective (own :: rest)) -> hb = ho.
+Proof.
+  intros H Hin. apply effective_in in Hin. cbn [visible] in Hin. rewrite H in Hin. inversion Hin. reflexivity.
+Qed.
+
+Lemma inherited_visible own rest i : find_hd own i = None -> visible (own :: rest) i = visible rest i.
+Proof. intro H. cbn [visible]. rewrite H. reflexivity. Qed.
+
+Lemma spec_declared_cases hs s t : forall acc,
+  let r := fold_left (fun acc h => if declares h s t then Some (h_id h, h_contextual h) else acc) hs acc in
+  (r = acc /\ forall h, In h hs -> declares h s t = false) \/
+  (exists h, In h hs /\ declares h s t = true /\ r = Some (h_id h, h_contextual h)).
+Proof.
+  induction hs as [|h0 hs IH]; intro acc; cbn [fold_left].
+  - left. split; [reflexivity|intros h []].
+  - destruct (declares h0 s t) eqn:E.
+    + destruct (IH (Some (h_id h0, h_contextual h0))) as [[A B]|[h [A [B C]]]].
+      * right. exists h0. split; [left; reflexivity|]. split; [exact E|exact A].
+      * right. exists h. split; [right; exact A|]. split; [exact B|exact C].
+    + destruct (IH acc) as [[A B]|[h [A [B C]]]].
+      * left. split; [exact A|]. intros h [<-|H]; [exact E|apply B; exact H].
+      * right. exists h. split; [right; exact A|]. split; [exact B|exact C].
+Qed.
+
+(** soundness: the handler selected for a derived class is the VISIBLE definition of a
+    method that declares the pair (or the default tag of that source when no visible method
+    declares the pair) *)
+Lemma derived_handler_sound chain s t m x :
+  get_handler (build_handlers (effective chain)) s t = Some (m, x) ->
+  exists h, visible chain m = Some h /\ x = h_contextual h /\
+    (declares h s t = true \/
+     (declares h s 0 = true /\ forall h', In h' (effective chain) -> declares h' s t = false)).
+Proof.
+  intro H. change (impl_table (effective chain) s t = Some (m, x)) in H.
+  rewrite handler_table_exact in H. unfold spec_table, spec_declared in H.
+  destruct (spec_declared_cases (effective chain) s t None) as [[A B]|[h [A [B C]]]]; cbv zeta in *.
+  - rewrite A in H. destruct (spec_declared_cases (effective chain) s 0 None) as [[A' _]|[h [A' [B' C']]]]; cbv zeta in *.
+    + rewrite A' in H. discriminate.
+    + rewrite C' in H. inversion H; subst. exists h. split; [apply effective_in; exact A'|]. split; [reflexivity|].
+      right. split; [exact B'|exact B].
+  - rewrite C in H. inversion H; subst. exists h. split; [apply effective_in; exact A|]. split; [reflexivity|left; exact B].
+Qed.
+
+(** completeness: a pair declared by a visible definition is routed to a handler declaring it *)
+Lemma derived_handler_complete chain s t h :
+  visible chain (h_id h) = Some h -> declares h s t = true ->
+  exists h', visible chain (h_id h') = Some h' /\ declares h' s t = true /\
+    get_handler (build_handlers (effective chain)) s t = Some (h_id h', h_contextual h').
+Proof.
+  intros Hv Hd. change (get_handler (build_handlers (effective chain)) s t) with (impl_table (effective chain) s t).
+  rewrite handler_table_exact. unfold spec_table, spec_declared.
+  destruct (spec_declared_cases (effective chain) s t None) as [[A B]|[h' [A [B C]]]]; cbv zeta in *.
+  - apply effective_in in Hv. rewrite (B h Hv) in Hd. discriminate.
+  - rewrite C. exists h'. split; [apply effective_in; exact A|]. split; [exact B|reflexivity].
+Qed.
+
+Lemma handler_table_exact_derived chain s t :
+  get_handler (build_handlers (effective chain)) s t = spec_table (effective chain) s t.
+Proof. apply handler_table_exact. Qed.
+
+Lemma refinement_derived p t ops : trace (impl_run (elab p t) ops) = trace (spec_run (elab p t) ops).
+Proof. apply refinement. Qed.
